@@ -41,7 +41,9 @@ def main():
     demo_src = open(demo).read().split("\n")
     demo_src = [("pass  # " + l.strip() if ("assert" in l and "/tmp/mut_" in l) else l) if not l.startswith((" ", "\t")) or "/tmp/mut_" not in l
                 else (l[:len(l) - len(l.lstrip())] + "pass  # " + l.strip() if "assert" in l else l) for l in demo_src]
-    demo = os.path.join(work, "demo.py")
+    # run it from its own directory (it may use helper files next to it)
+    orig_demo = demo
+    demo = os.path.join(os.path.dirname(os.path.abspath(orig_demo)), "_run_" + os.path.basename(orig_demo))
     open(demo, "w").write("\n".join(demo_src))
     # (2) demonstration
     helper_dir = os.path.dirname(os.path.abspath(sys.argv[4]))     # demos may import helper modules written next to them
@@ -81,7 +83,13 @@ def main():
     out = os.path.join(ROOT, "seeded", sid)
     os.makedirs(out, exist_ok=True)
     shutil.copy(patch, os.path.join(out, "patch.diff"))
-    shutil.copy(demo, os.path.join(out, "demo.py"))
+    shutil.copy(orig_demo, os.path.join(out, "demo.py"))
+    for extra in ("stubs", "c02check.py"):
+        src = os.path.join(os.path.dirname(os.path.abspath(orig_demo)), extra)
+        if os.path.isdir(src):
+            shutil.copytree(src, os.path.join(out, extra), dirs_exist_ok=True)
+        elif os.path.isfile(src):
+            shutil.copy(src, os.path.join(out, extra))
     src_meta = os.path.join(os.path.dirname(os.path.abspath(patch)), "meta%s.json" % os.path.basename(patch)[5:-5])
     if os.path.exists(src_meta):
         try:
